@@ -185,6 +185,14 @@ func c11DecodeInto(w *rt.W, data []byte, before date.Date) (accepted bool) {
 }
 
 func runC11(c *rt.Ctx) {
+	appenderSweep(c, func() []any {
+		var out []any
+		for _, v := range []date.Date{date.New(2024, 2, 29), date.New(1, 1, 1), date.New(9999, 12, 31), date.New(-44, 3, 15), date.New(999999999, 12, 31), date.New(-999999999, 1, 1), date.New(256, 1, 1), date.New(65536, 7, 4), date.Date{}} {
+			v := v
+			out = append(out, v, &v)
+		}
+		return out
+	}())
 	c.SetRule("every date of years -400..9999 is enumerated once (exhaustive): MarshalBinary vs an independent encoder and UnmarshalBinary back; seeded dates out to +-999,999,999; for 12 years all 65,536 (month byte, day byte) payloads; all 256 version bytes; all lengths 0..16; seeded random 7-byte payloads with version 1. " +
 		"distinct_nontrivial counts distinct payloads with month outside 1..12 or day beyond the month (each enumerated once in the byte grid) plus distinct round-tripped dates")
 	c.Assume("byte layout (version 1, big-endian int32 year, month, day) re-implemented in the harness; calendar from harness/ref/civil.go")
